@@ -22,7 +22,7 @@ RULE = ('gridded IOAPI files (1-5 steps, 1-4 layers/rows/columns; start times ju
         'touching either edge, integers given as python ints or numpy integers: the complete metadata state after sliceDimensions is compared with the Lean model, '
         'and an independent oracle recomputes from the SOURCE file the origin (first index x cell), the level edges '
         '(sub-range, one more than layers), the decoded times (sub-range of getTimes()) and SDATE/STIME/TSTEP; '
-        'non-trivial = a window that does not start at index 0 on at least one dimension')
+        'non-trivial = a window that does not start at index 0 on at least one dimension; level edges decreasing (sigma) or increasing (heights)')
 ASSUMPTIONS = c10.ASSUMPTIONS + ['dyadic cell sizes and level edges, so float32/float64 arithmetic of the code is exact',
                                  'time_window (full) assumes AllListed: every standard-dimension variable with a name of at most 16 characters is listed and names are distinct, which updatemeta establishes for the files the library builds; time_window_partial states the same under the bare side condition, which the harness also checks on every case']
 MIN_NONTRIVIAL = {'quick': 120, 'thorough': 2000}
